@@ -182,6 +182,19 @@ def decomp_case(M, mask, equal_l1, max_iter, subsample=None, via="function"):
                 M.implies(_x_ok(M, Xcl, lbl, ubl, mask, equal_l1), M.le(_nrm(_loss(M, Aeff, beff, Bl, Wl, Pl, Xl)), _nrm(_loss(M, Aeff, beff, Bl, Wl, Pl, Xcl)))), [inst])
             goals["the intensity sub-problem is feasible whenever the documented constraints are"] = (
                 M.implies(_x_ok(M, Xcl, lbl, ubl, mask, equal_l1), SB(cons_alt)), [], dict(pc_upto=last["pc_before"]))
+        # every sub-problem minimises the documented weighted fitting error (as a function of its own factor, the other one fixed to the previous solve's result)
+        for k in range(1, len(solves)):
+            cur, prev = solves[k], solves[k - 1]
+            vk = cur["problem"].variables()[0]; vp = prev["problem"].variables()[0]
+            fk = np.asarray(cur["xstar"][vk]); fp = np.asarray(prev["xstar"][vp])
+            if fk.shape == (layers, n) and fp.shape == (rows, layers):
+                Pk, Xk = [list(fp[i]) for i in range(rows)], [list(fk[l]) for l in range(layers)]
+            elif fk.shape == (rows, layers) and fp.shape == (layers, n):
+                Pk, Xk = [list(fk[i]) for i in range(rows)], [list(fp[l]) for l in range(layers)]
+            else:
+                continue
+            which = "intensity" if fk.shape == (layers, n) else "opacity"
+            goals[f"solve {k} ({which} step): the minimised objective is the weighted fitting error"] = M.eq(cur["obj"], _nrm(_loss(M, Aeff, beff, Bl, Wl, Pk, Xk)))
         # descent: every solve's objective value does not exceed its value at the previous iterate (instances of the contract at the previous iterate)
         if len(solves) >= 3:
             chain = []
